@@ -556,6 +556,7 @@ pub fn gen_case(rng: &mut Rng) -> Case {
             cwd: "w".into(),
             env,
             entropy: rng.next(),
+            umask: Some(*rng.pick(&[0o022, 0o022, 0o002, 0o077, 0o027, 0o000, 0o007])),
             ..Default::default()
         },
         opts,
